@@ -1378,7 +1378,9 @@ impl Group for C08Onchain {
 mod psbt;
 #[path = "c08_restart.rs"]
 mod restart;
+#[path = "c08_wallet.rs"]
+mod wallet;
 
 pub fn groups() -> Vec<Box<dyn Group>> {
-    vec![Box::new(C08Onchain), Box::new(psbt::C08Psbt), Box::new(restart::C08FeeRestart)]
+    vec![Box::new(C08Onchain), Box::new(psbt::C08Psbt), Box::new(restart::C08FeeRestart), Box::new(wallet::C08Wallet)]
 }
